@@ -1,6 +1,7 @@
 from vlib import Check
 
 TRUSTED = [
+    "tie (T), added: the statement lists of the functions this property's model was transcribed from are regenerated from /repo on every run (Gen/Stmts.lean) and pinned against the committed transcription source by the kernel-decided theorem source_as_modelled; the step from statements to model is by reading and is what the differential runs check",
     "Lean 4.33.0 kernel; axioms of every theorem audited",
     "hand-written model Model/Disc.lean of disc/discovery.go (Synchronize, intersectedView, myMemberViewSorted, HandleMessage and its three handlers, registration and tag table), tied by the harness component sync: "
     "(1) a real Member driven step by step through exported wrappers with a state snapshot after every step, (2) a real Synchronize goroutine driven in lockstep through the yield hooks so that every pass, evaluation, tick, "
@@ -18,7 +19,7 @@ ASSUME = [
 
 def main():
     c = Check("C07")
-    c.prove(gen=["wire"])
+    c.prove(gen=["wire", "stmts"])
     c.correspond("sync")
     return c.finish(
         rule="(render) 4000 pairs of views: %v rendering equal iff lists equal. (step) 120 (1500) histories on a real Member, 2-6 configured ids from a pool spanning 0..65535, 3 topics, 20-80 steps: registrations (incl. repeated), "
